@@ -78,6 +78,17 @@ def run_case(case, ctx):
             bad = [(rd[i], cd[j], I[i, j]) for i in range(n) for j in range(len(sel)) if I[i, j] != (1 if rd[i] in mem[cd[j]] else 0)]
             C(not bad, ("incidence", "entry"), lambda: "%s sparse=%s: %r members %r" % (tag, sparse, bad[:3], mem))
         C(outs[0].shape == outs[1].shape and np.array_equal(outs[0], outs[1]), ("incidence", "sparse-vs-dense"), tag)
+        # weighted incidence matrix: entry = weight(node, edge, H) at the incidences (documented `weight` callable)
+        if sel and nodes:
+            nrank = {v: i for i, v in enumerate(sorted(nodes, key=repr))}
+            erank = {e: i for i, e in enumerate(sorted(edges, key=repr))}
+            wf = lambda node, edge, HH: 1 + nrank[node] + 10 * erank[edge]  # noqa: E731
+            for sparse in (True, False):
+                I, rd, cd = xgi.incidence_matrix(H, order=order, sparse=sparse, index=True, weight=wf)
+                I = dense(I)
+                if C(I.shape == (n, len(sel)), ("incidence", "weighted-shape"), lambda: "%s %r" % (tag, I.shape)):
+                    bad = [(rd[i], cd[j], I[i, j]) for i in range(n) for j in range(len(sel)) if I[i, j] != (wf(rd[i], cd[j], H) if rd[i] in mem[cd[j]] else 0)]
+                    C(not bad, ("incidence", "weighted-entry"), lambda: "%s sparse=%s: (node, edge, got) %r" % (tag, sparse, bad[:3]))
         # ---- adjacency
         for s in (1, 2, 3):
             for weighted in (False, True):
